@@ -371,6 +371,55 @@ def prepared_ws(prelude, **kw):
     return ws, sock
 
 
+APP_CTOR_OPTS = ("header", "cookie", "subprotocols", "socket")
+APP_RUN_OPTS = ("sockopt", "sslopt", "http_proxy_host", "http_proxy_port", "http_no_proxy", "http_proxy_auth", "http_proxy_timeout",
+                "skip_utf8_validation", "host", "origin", "suppress_origin", "proxy_type")
+
+
+def open_via(via, url, ws_opts=None, conn_opts=None):
+    """Open one connection through one of the public entry points and return (object or None, exception or None):
+      connect            WebSocket(**ws_opts).connect(url, **conn_opts)
+      create_connection  create_connection(url, **ws_opts, **conn_opts)
+      app                WebSocketApp(url, <constructor options>, on_open=close).run_forever(<run options>) - single-threaded: on_open calls
+                         close(), so the run ends right after the handshake; an error reported to on_error is the exception
+    The caller installs the simulated network (and env.install_selectors() for 'app')."""
+    ws_opts, conn_opts = dict(ws_opts or {}), dict(conn_opts or {})
+    W = lib.websocket
+    if via == "connect":
+        ws = W.WebSocket(**ws_opts)
+        try:
+            ws.connect(url, **conn_opts)
+            return ws, None
+        except Exception as e:
+            return ws, e
+    if via == "create_connection":
+        try:
+            return W.create_connection(url, **ws_opts, **conn_opts), None
+        except Exception as e:
+            return None, e
+    if via == "app":
+        allopts = dict(ws_opts, **conn_opts)
+        unknown = [k for k in allopts if k not in APP_CTOR_OPTS + APP_RUN_OPTS]
+        if unknown:
+            raise ValueError("options %r cannot be given to WebSocketApp" % unknown)
+        seen = {"opened": False, "err": None}
+
+        def on_open(app):
+            seen["opened"] = True
+            app.close()
+
+        def on_error(app, e):
+            if seen["err"] is None:
+                seen["err"] = e
+
+        app = W.WebSocketApp(url, on_open=on_open, on_error=on_error, **{k: v for k, v in allopts.items() if k in APP_CTOR_OPTS})
+        app.run_forever(**{k: v for k, v in allopts.items() if k in APP_RUN_OPTS})
+        if seen["err"] is None and not seen["opened"]:
+            seen["err"] = RuntimeError("run_forever ended without on_open and without on_error")
+        return app, seen["err"]
+    raise KeyError(via)
+
+
 def exc_name(e):
     return type(e).__name__
 
